@@ -32,6 +32,9 @@ pub struct C20Case {
     /// like on a file system without lock support; files there are never locked by the harness
     #[serde(default)]
     pub nolock_dir: Option<u16>,
+    /// fclones' lock request on a file locked by the harness fails with ENOLCK instead of EAGAIN
+    #[serde(default)]
+    pub conflict_enolck: bool,
     /// the n-th lstat of the first locked file fails with EIO (interposer): the dedupe command cannot
     /// tell whether the path is a symlink just before it asks for the lock
     #[serde(default)]
@@ -54,15 +57,15 @@ fn profile() -> ScenarioProfile {
 }
 
 fn case_strategy() -> BoxedStrategy<C20Case> {
-    (dcase_strategy(profile()), proptest::collection::vec(0u16..u16::MAX, 1..4), prop::bool::weighted(0.1), 0u8..4, prop::bool::weighted(0.35), prop::bool::weighted(0.2), prop::option::weighted(0.2, 0u16..u16::MAX), prop::option::weighted(0.15, 1u8..4))
-        .prop_map(|(mut d, locked, lock_all, range, read_lock, readonly, nolock_dir, lstat_fault)| {
+    (dcase_strategy(profile()), proptest::collection::vec(0u16..u16::MAX, 1..4), prop::bool::weighted(0.1), 0u8..4, prop::bool::weighted(0.35), prop::bool::weighted(0.2), prop::option::weighted(0.2, 0u16..u16::MAX), prop::option::weighted(0.15, 1u8..4), prop::bool::weighted(0.2))
+        .prop_map(|(mut d, locked, lock_all, range, read_lock, readonly, nolock_dir, lstat_fault, conflict_enolck)| {
             // access times change when the harness reads files; keep the intention stable
             for p in d.dopts.priority.iter_mut() {
                 if *p % 12 == 6 || *p % 12 == 7 {
                     *p = 0;
                 }
             }
-            C20Case { d, locked, lock_all, range, read_lock, readonly, nolock_dir, lstat_fault }
+            C20Case { d, locked, lock_all, range, read_lock, readonly, nolock_dir, lstat_fault, conflict_enolck }
         })
         .boxed()
 }
@@ -224,6 +227,11 @@ fn judge(c: &C20Case, g: &Grouped, target: &std::path::PathBuf) -> Verdict {
             lstat_faulted = true;
         }
     }
+    let mut enolck = false;
+    if c.conflict_enolck && nolock.is_none() && !c.readonly && !lstat_faulted && std::path::Path::new(SHIM).exists() {
+        run = run.env("LD_PRELOAD", SHIM).env("FCV_ROOT", format!("{}:{}", tree.display(), target.display())).env("FCV_LOCK_CONFLICT_ENOLCK", "1");
+        enolck = true;
+    }
     let before = if c.readonly && std::path::Path::new("/usr/bin/setpriv").exists() {
         use std::os::unix::fs::PermissionsExt;
         for p in &lock_set {
@@ -250,6 +258,9 @@ fn judge(c: &C20Case, g: &Grouped, target: &std::path::PathBuf) -> Verdict {
     }
     if lstat_faulted {
         sig.push("lstat-of-a-locked-file-fails".into());
+    }
+    if enolck {
+        sig.push("lock-conflict-reported-as-enolck".into());
     }
     let fail = |clause: &str, detail: String| Verdict::Fail { clause: clause.into(), detail: format!("{}\n{}\n{}", cmd, detail, out.brief()), sig: sig.clone() };
     if out.timed_out {
@@ -297,7 +308,7 @@ pub fn check(tier: Tier) -> i32 {
     cleanup_process_scratch();
     ctx.finish(
         "exploration",
-        "proptest-generated dedupe scenarios (hostile file names, hard links, priorities, -n, isolate) x operation (remove, link, link --soft, move, dedupe) x a non-empty subset of the files the command intends to process (learnt from a dry run) locked by the harness with open-file-description write or read locks (whole file or byte ranges) x --no-lock on/off; in a fifth of the cases the locked files are read-only and fclones runs without CAP_DAC_OVERRIDE (setpriv), like an ordinary user who may delete but not open them for writing; in another fifth record locks are refused with EOPNOTSUPP below the directory of one intended file (interposer; a file system without lock support, files there are not locked by the harness, single worker thread); in 15 % one lstat of a locked file fails with EIO (the locked file must still be left alone). Oracle: without --no-lock every locked file is untouched (same inode, bytes, path) and a warning is logged, every unlocked intended file is processed; with --no-lock all intended files are processed. Non-trivial = at least one locked and one unlocked intended file in the same run (operation other than the unsupported reflink).",
+        "proptest-generated dedupe scenarios (hostile file names, hard links, priorities, -n, isolate) x operation (remove, link, link --soft, move, dedupe) x a non-empty subset of the files the command intends to process (learnt from a dry run) locked by the harness with open-file-description write or read locks (whole file or byte ranges) x --no-lock on/off; in a fifth of the cases the locked files are read-only and fclones runs without CAP_DAC_OVERRIDE (setpriv), like an ordinary user who may delete but not open them for writing; in another fifth record locks are refused with EOPNOTSUPP below the directory of one intended file (interposer; a file system without lock support, files there are not locked by the harness, single worker thread); in 15 % one lstat of a locked file fails with EIO (the locked file must still be left alone). in a fifth of the cases the interposer turns the conflict answer (EAGAIN/EACCES) to fclones' own lock request into ENOLCK, as a lock manager in trouble does. Oracle: without --no-lock every locked file is untouched (same inode, bytes, path) and a warning is logged, every unlocked intended file is processed; with --no-lock all intended files are processed. Non-trivial = at least one locked and one unlocked intended file in the same run (operation other than the unsupported reflink).",
         &["F_OFD_SETLK write/read locks held by the harness conflict with fclones' fcntl(F_SETLK) like a lock of a foreign process", "reflink is unsupported here: for `dedupe` only 'locked files untouched' is checked"],
     )
 }
